@@ -48,6 +48,24 @@ def gen_cases(spec, ctx):
             b = formats.gen_pair_for_type(r, t)[1]
         for fmt, mode, look, cond, same in itertools.product(formats.TYPES, MODES, LOOKS, COND, [False, True]):
             yield {"type": t, "a": a, "b": a if same else b, "fmt": fmt, "mode": mode, "look": look, "cond": cond, "same": same}
+    if t == "pickle":
+        # Python sets reach graphtage only through pickles (and the builder API): a bare multiset that is not a mapping
+        e = r.choice([4, 9, "z"])
+        a = {"k": {"$set": [1, 2, 3]}, "l": [1, {"$set": ["a", "b"]}]}
+        b = {"k": {"$set": [1, 2, e]}, "l": [1, {"$set": ["a", "c"]}]}
+        for fmt, mode, look, cond, same in itertools.product(formats.TYPES, MODES, LOOKS, COND, [False, True]):
+            yield {"type": t, "a": a, "b": a if same else b, "fmt": fmt, "mode": mode, "look": look, "cond": cond, "same": same,
+                   "sets": True}
+
+
+def _thaw(o):
+    if isinstance(o, frozenset):
+        return set(o)
+    if isinstance(o, dict):
+        return {k: _thaw(v) for k, v in o.items()}
+    if isinstance(o, list):
+        return [_thaw(v) for v in o]
+    return o
 
 
 def check(case, ctx):
@@ -56,6 +74,10 @@ def check(case, ctx):
     da, db = case["a"], case["b"]
     if t in formats.DATA_TYPES:
         da, db = families.dec(da), families.dec(db)      # documents with non-string keys travel in tagged form
+    if case.get("sets"):
+        da, db = _thaw(da), _thaw(db)
+        if ctx is not None:
+            ctx.count("cells_with_python_sets")
     pa = families.tmpfile(formats.write(t, da), "-a" + formats.EXT[t])
     pb = families.tmpfile(formats.write(t, db), "-b" + formats.EXT[t])
     # every other cell runs the way a user's default invocation does: status output enabled and stdout/stderr with real file
